@@ -1,12 +1,12 @@
 /* VF
 {
  "defines": ["-DJANET_NO_NANBOX"],
- "units": ["buffer.c", "util.c"],
+ "units": ["buffer.c", "util.c", "table.c", "value.c", "wrap.c", "state.c", "vector.c"],
  "unwind": 11,
  "timeout": 120,
- "cases": [{"name": "int32_roundtrip", "D": ["-DVF_CASE=1"]}, {"name": "u64_roundtrip", "D": ["-DVF_CASE=2"]}, {"name": "readint_any_len0", "D": ["-DVF_CASE=3", "-DVF_LEN=0"], "tier": "quick"}, {"name": "readint_any_len1", "D": ["-DVF_CASE=3", "-DVF_LEN=1"], "tier": "quick"}, {"name": "readint_any_len2", "D": ["-DVF_CASE=3", "-DVF_LEN=2"], "tier": "quick"}, {"name": "readint_any_len3", "D": ["-DVF_CASE=3", "-DVF_LEN=3"], "tier": "thorough"}, {"name": "readint_any_len4", "D": ["-DVF_CASE=3", "-DVF_LEN=4"], "tier": "thorough"}, {"name": "readint_any_len5", "D": ["-DVF_CASE=3", "-DVF_LEN=5"], "tier": "quick"}, {"name": "readint_any_len6", "D": ["-DVF_CASE=3", "-DVF_LEN=6"], "tier": "thorough"}, {"name": "readint_any_len7", "D": ["-DVF_CASE=3", "-DVF_LEN=7"], "tier": "thorough"}, {"name": "readint_any_len8", "D": ["-DVF_CASE=3", "-DVF_LEN=8"], "tier": "thorough"}, {"name": "readint_any_len9", "D": ["-DVF_CASE=3", "-DVF_LEN=9"], "tier": "quick"}, {"name": "read64_any_len0", "D": ["-DVF_CASE=4", "-DVF_LEN=0"], "tier": "quick"}, {"name": "read64_any_len1", "D": ["-DVF_CASE=4", "-DVF_LEN=1"], "tier": "quick"}, {"name": "read64_any_len2", "D": ["-DVF_CASE=4", "-DVF_LEN=2"], "tier": "quick"}, {"name": "read64_any_len3", "D": ["-DVF_CASE=4", "-DVF_LEN=3"], "tier": "thorough"}, {"name": "read64_any_len4", "D": ["-DVF_CASE=4", "-DVF_LEN=4"], "tier": "thorough"}, {"name": "read64_any_len5", "D": ["-DVF_CASE=4", "-DVF_LEN=5"], "tier": "quick"}, {"name": "read64_any_len6", "D": ["-DVF_CASE=4", "-DVF_LEN=6"], "tier": "thorough"}, {"name": "read64_any_len7", "D": ["-DVF_CASE=4", "-DVF_LEN=7"], "tier": "thorough"}, {"name": "read64_any_len8", "D": ["-DVF_CASE=4", "-DVF_LEN=8"], "tier": "thorough"}, {"name": "read64_any_len9", "D": ["-DVF_CASE=4", "-DVF_LEN=9"], "tier": "quick"}, {"name": "ctx_readers_any_len0", "D": ["-DVF_CASE=5", "-DVF_LEN=0"], "tier": "quick"}, {"name": "ctx_readers_any_len1", "D": ["-DVF_CASE=5", "-DVF_LEN=1"], "tier": "quick"}, {"name": "ctx_readers_any_len2", "D": ["-DVF_CASE=5", "-DVF_LEN=2"], "tier": "quick"}, {"name": "ctx_readers_any_len3", "D": ["-DVF_CASE=5", "-DVF_LEN=3"], "tier": "thorough"}, {"name": "ctx_readers_any_len4", "D": ["-DVF_CASE=5", "-DVF_LEN=4"], "tier": "thorough"}, {"name": "ctx_readers_any_len5", "D": ["-DVF_CASE=5", "-DVF_LEN=5"], "tier": "quick"}, {"name": "ctx_readers_any_len6", "D": ["-DVF_CASE=5", "-DVF_LEN=6"], "tier": "thorough"}, {"name": "ctx_readers_any_len7", "D": ["-DVF_CASE=5", "-DVF_LEN=7"], "tier": "thorough"}, {"name": "ctx_readers_any_len8", "D": ["-DVF_CASE=5", "-DVF_LEN=8"], "tier": "thorough"}, {"name": "ctx_readers_any_len9", "D": ["-DVF_CASE=5", "-DVF_LEN=9"], "tier": "quick"}],
+ "cases": [{"name": "int32_roundtrip", "D": ["-DVF_CASE=1"]}, {"name": "u64_roundtrip", "D": ["-DVF_CASE=2"]}, {"name": "readint_any_len0", "D": ["-DVF_CASE=3", "-DVF_LEN=0"], "tier": "quick"}, {"name": "readint_any_len1", "D": ["-DVF_CASE=3", "-DVF_LEN=1"], "tier": "quick"}, {"name": "readint_any_len2", "D": ["-DVF_CASE=3", "-DVF_LEN=2"], "tier": "quick"}, {"name": "readint_any_len3", "D": ["-DVF_CASE=3", "-DVF_LEN=3"], "tier": "thorough"}, {"name": "readint_any_len4", "D": ["-DVF_CASE=3", "-DVF_LEN=4"], "tier": "thorough"}, {"name": "readint_any_len5", "D": ["-DVF_CASE=3", "-DVF_LEN=5"], "tier": "quick"}, {"name": "readint_any_len6", "D": ["-DVF_CASE=3", "-DVF_LEN=6"], "tier": "thorough"}, {"name": "readint_any_len7", "D": ["-DVF_CASE=3", "-DVF_LEN=7"], "tier": "thorough"}, {"name": "readint_any_len8", "D": ["-DVF_CASE=3", "-DVF_LEN=8"], "tier": "thorough"}, {"name": "readint_any_len9", "D": ["-DVF_CASE=3", "-DVF_LEN=9"], "tier": "quick"}, {"name": "read64_any_len0", "D": ["-DVF_CASE=4", "-DVF_LEN=0"], "tier": "quick"}, {"name": "read64_any_len1", "D": ["-DVF_CASE=4", "-DVF_LEN=1"], "tier": "quick"}, {"name": "read64_any_len2", "D": ["-DVF_CASE=4", "-DVF_LEN=2"], "tier": "quick"}, {"name": "read64_any_len3", "D": ["-DVF_CASE=4", "-DVF_LEN=3"], "tier": "thorough"}, {"name": "read64_any_len4", "D": ["-DVF_CASE=4", "-DVF_LEN=4"], "tier": "thorough"}, {"name": "read64_any_len5", "D": ["-DVF_CASE=4", "-DVF_LEN=5"], "tier": "quick"}, {"name": "read64_any_len6", "D": ["-DVF_CASE=4", "-DVF_LEN=6"], "tier": "thorough"}, {"name": "read64_any_len7", "D": ["-DVF_CASE=4", "-DVF_LEN=7"], "tier": "thorough"}, {"name": "read64_any_len8", "D": ["-DVF_CASE=4", "-DVF_LEN=8"], "tier": "thorough"}, {"name": "read64_any_len9", "D": ["-DVF_CASE=4", "-DVF_LEN=9"], "tier": "quick"}, {"name": "ctx_readers_any_len0", "D": ["-DVF_CASE=5", "-DVF_LEN=0"], "tier": "quick"}, {"name": "ctx_readers_any_len1", "D": ["-DVF_CASE=5", "-DVF_LEN=1"], "tier": "quick"}, {"name": "ctx_readers_any_len2", "D": ["-DVF_CASE=5", "-DVF_LEN=2"], "tier": "quick"}, {"name": "ctx_readers_any_len3", "D": ["-DVF_CASE=5", "-DVF_LEN=3"], "tier": "thorough"}, {"name": "ctx_readers_any_len4", "D": ["-DVF_CASE=5", "-DVF_LEN=4"], "tier": "thorough"}, {"name": "ctx_readers_any_len5", "D": ["-DVF_CASE=5", "-DVF_LEN=5"], "tier": "quick"}, {"name": "ctx_readers_any_len6", "D": ["-DVF_CASE=5", "-DVF_LEN=6"], "tier": "thorough"}, {"name": "ctx_readers_any_len7", "D": ["-DVF_CASE=5", "-DVF_LEN=7"], "tier": "thorough"}, {"name": "ctx_readers_any_len8", "D": ["-DVF_CASE=5", "-DVF_LEN=8"], "tier": "thorough"}, {"name": "ctx_readers_any_len9", "D": ["-DVF_CASE=5", "-DVF_LEN=9"], "tier": "quick"}, {"name": "value_roundtrip_nil", "D": ["-DVF_CASE=6", "-DVF_KIND=0"], "unwind": 12, "timeout": 240}, {"name": "value_roundtrip_bool", "D": ["-DVF_CASE=6", "-DVF_KIND=1"], "unwind": 12, "timeout": 1800, "tier": "thorough"}, {"name": "value_roundtrip_intnum", "D": ["-DVF_CASE=6", "-DVF_KIND=2"], "unwind": 12, "timeout": 1800, "tier": "thorough"}, {"name": "value_roundtrip_realnum", "D": ["-DVF_CASE=6", "-DVF_KIND=3"], "unwind": 12, "timeout": 1800, "tier": "thorough"}],
  "functions_encoded": ["marsh.c: pushint, push64, pushbyte, pushbytes, readint, readnat, read64, janet_unmarshal_int, janet_unmarshal_int64, janet_unmarshal_size, janet_unmarshal_byte, janet_unmarshal_bytes, janet_unmarshal_ensure", "buffer.c: janet_buffer_push_u8, janet_buffer_push_bytes, janet_buffer_extra, janet_buffer_ensure"],
- "asserted": ["M1: readint(pushint(x)) == x for all int32 x, consuming exactly the bytes written, which are 1 / 2 / 5 bytes for the documented ranges; read64(push64(x)) == x for all uint64",
+ "asserted": ["M2 (scalars; nil in the quick tier, booleans and numbers thorough — the whole unmarshal_one switch is in the formula and no verdict came within 240 s): janet_unmarshal(janet_marshal(v)) is bit-identical to v (NaNs identified) and consumes exactly the bytes written, for nil, booleans and EVERY double (integers take the 1/2/5-byte integer form, all others the 8-byte real form)", "M1: readint(pushint(x)) == x for all int32 x, consuming exactly the bytes written, which are 1 / 2 / 5 bytes for the documented ranges; read64(push64(x)) == x for all uint64",
               "U3: on an arbitrary buffer of symbolic length <= 9 every reader either raises or consumes only bytes inside [start, end) (CBMC dereference checks on an exactly-sized heap object) and advances the cursor by what it consumed"],
  "bounds": ["all 2^32 / 2^64 integers; arbitrary input buffers of length 0..9 with every byte symbolic; janet_unmarshal_bytes lengths 0..12"],
  "stubs": ["janet_gcpressure (no-op)", "janet_panic* = end of path"],
@@ -15,6 +15,8 @@
 VF */
 #include "vf_stubs.h"
 void janet_gcpressure(size_t s) { (void) s; }
+void *janet_smalloc(size_t n) { return malloc(n ? n : 1); }
+void janet_sfree(void *p) { free(p); }
 #include "marsh.c"
 
 static void mk_marshal(MarshalState *st, JanetBuffer *buf) {
@@ -52,6 +54,21 @@ void harness(void) {
     VF_ASSERT(d == buf.data + n, "read64 consumed a different number of bytes than push64 wrote");
     VF_ASSERT(n >= 1 && n <= 9, "push64 size");
     VF_WITNESS("u64 roundtrip");
+#elif VF_CASE == 6
+    janet_vm.traversal = NULL; janet_vm.traversal_base = NULL; janet_vm.traversal_top = NULL;
+    JanetBuffer buf; janet_buffer_init(&buf, 16);
+    const int kind = VF_KIND >= 2 ? 2 : VF_KIND;
+    double d = vf_f64();
+    if (VF_KIND == 2) VF_ASSUME(janet_checkintrange(d)); else if (VF_KIND == 3) VF_ASSUME(!janet_checkintrange(d));
+    Janet v = kind == 0 ? janet_wrap_nil() : (kind == 1 ? janet_wrap_boolean(vf_bool()) : janet_wrap_number(d));
+    janet_marshal(&buf, v, NULL, 0);
+    const uint8_t *next = NULL;
+    Janet w = janet_unmarshal(buf.data, (size_t) buf.count, 0, NULL, &next);
+    VF_ASSERT(next == buf.data + buf.count, "unmarshal consumed a different number of bytes than marshal wrote");
+    VF_ASSERT(janet_type(w) == janet_type(v), "round trip changed the type");
+    if (kind == 1) VF_ASSERT(janet_unwrap_boolean(w) == janet_unwrap_boolean(v), "boolean changed");
+    if (kind == 2) { union { double d; uint64_t u; } a, b; a.d = d; b.d = janet_unwrap_number(w); VF_ASSERT(a.u == b.u || (a.d != a.d && b.d != b.d), "a number does not survive the marshal round trip bit for bit"); }
+    VF_WITNESS("scalar value roundtrip");
 #else
     /* arbitrary untrusted bytes in an exactly-sized heap object */
     int32_t len = VF_LEN;
